@@ -30,6 +30,26 @@ def _tol(q: float, cond: float) -> float:
     return 1e-9 * max(1.0, abs(q)) + (abs(q) + 20.0) * min(1e-7, 2e-13 / math.sqrt(cond + 1e-30))
 
 
+def _container(fp, kind: str):
+    """the same coordinates handed over in another container type: a float ndarray is what Mesh / Sketch pass; a grid may
+    also be built directly from an integer ndarray (whole-number coordinates), nested lists or a list of tuples"""
+    import numpy as np
+
+    if kind == "float":
+        return np.array(fp, dtype=float)
+    if kind == "int":
+        assert all(float(x).is_integer() for p in fp for x in p)
+        return np.array([[int(x) for x in p] for p in fp])
+    if kind == "intlist":
+        assert all(float(x).is_integer() for p in fp for x in p)
+        return [[int(x) for x in p] for p in fp]
+    if kind == "floatlist":
+        return [[float(x) for x in p] for p in fp]
+    if kind == "tuples":
+        return [tuple(float(x) for x in p) for p in fp]
+    raise ValueError(kind)
+
+
 def _bits_to_float(s: str) -> float:
     return struct.unpack("d", struct.pack("Q", int(s)))[0]
 
@@ -102,6 +122,8 @@ class C14(core.Check):
         "directions. Histories: one grid object on a jittered row of 2..4 cells through read / grid.update(i, position) steps, "
         "or a rigid motion of the whole grid out of its plane (point by point or written at once), "
         "compared at every read with a freshly built grid and at the end with fresh grids on rigidly moved points. "
+        "Containers: whole-number coordinates as int array / int lists / float lists / tuples next to the float array, under "
+        "whole-number translations and quarter turns; histories also on such containers. "
         "Boundary stream: degenerate cells (coincident points). Non-trivial = not degenerate; distinct = "
         "different case dict."
     )
@@ -305,6 +327,29 @@ class C14(core.Check):
             cases.append({"kind": kind, "tag": "stretch", "side": str(L), "factors": [str(s1), str(s2)],
                           "quat": self._quat(rng) if rng.random() < 0.7 else None,
                           "trans": [str(_dy(rng, -20, 20, 8)) for _ in range(3)]})
+        # ---- round 4: whole-number coordinates handed over as integer arrays / lists (a grid can be built directly from them)
+        quarter = [[1, 1, 0, 0], [1, 0, 1, 0], [1, 0, 0, 1], [0, 1, 0, 0], [0, 0, 1, 0], [1, -1, 0, 0], [0, 1, 1, 0], [1, 1, 1, 1]]
+        for k in range(max(6, n // 8)):
+            kind = "hex" if rng.random() < 0.5 else "quad"
+            far = rng.random() < 0.5
+            if kind == "hex":
+                pts, cells = self._with_hex_neighbours(rng, self._hex_cell(rng, far))
+            else:
+                pts, cells = self._with_quad_neighbours(rng, self._quad_cell(rng, far))
+            # all coordinates are dyadic: times the largest denominator every coordinate is a whole number
+            mult = max(x.denominator for p in pts for x in p)
+            pts = [[mult * x for x in p] for p in pts]
+            ts: List[dict] = [{}]
+            for _ in range(4):
+                t: Dict[str, Any] = {}
+                if rng.random() < 0.7:
+                    t["trans"] = [str(rng.randint(-3000, 3000)) for _ in range(3)]
+                if rng.random() < 0.6:
+                    t["quat"] = rng.choice(quarter if kind == "hex" else [[1, 0, 0, 1], [0, 0, 0, 1], [1, 0, 0, -1]] + quarter)
+                if t:
+                    ts.append(t)
+            cases.append({"kind": kind, "tag": "containers", "points": S(pts), "cells": cells, "transforms": ts,
+                          "containers": ["int", "intlist", "floatlist", "tuples"]})
         # ---- round 2: histories on one grid: read, grid.update(i, position), read ... compared with freshly built grids
         for k in range(max(6, n // 3)):
             kind = "hex" if rng.random() < 0.5 else "quad"
@@ -357,8 +402,14 @@ class C14(core.Check):
                 hops.append(["R"])
             moves = [{"trans": [str(_dy(rng, -20, 20, 8)) for _ in range(3)]},
                      {"quat": self._quat(rng), "trans": [str(_dy(rng, -20, 20, 8)) for _ in range(3)]}]
+            # round 4: the grid's own point container need not be a float ndarray (whole-number histories also as int array)
+            cont = rng.choice(["float", "float", "floatlist", "tuples", "intlist" if tag != "history-rotate" else "floatlist",
+                               "int" if tag != "history-rotate" else "tuples"])
+            if cont in ("int", "intlist"):
+                pts = [[64 * x for x in p] for p in pts]
+                hops = [op if op[0] == "R" else ["U", op[1], [str(64 * F(x)) for x in op[2]]] for op in hops]
             cases.append({"kind": kind, "tag": tag, "cls": "history", "points": S(pts), "cells": cells, "hops": hops,
-                          "moves": moves})
+                          "moves": moves, "container": cont})
         # boundary stream: degenerate cells
         cases.append({"kind": "quad", "tag": "degenerate", "points": S([[0, 0, 0], [0, 0, 0], [1, 1, 0], [0, 1, 0]]),
                       "cells": [[0, 1, 2, 3]], "transforms": [{}, {"sigma": [ROT4[1]]}]})
@@ -431,6 +482,23 @@ class C14(core.Check):
                 finally:
                     cellmod.VSMALL = saved
                     warnings.resetwarnings()
+            if case.get("containers"):
+                alt: Dict[str, Any] = {}
+                for cont in case["containers"]:
+                    vals = []
+                    try:
+                        grid = cls(_container(fp, cont), [list(c) for c in cells])
+                        for c in grid.cells:
+                            try:
+                                vals.append(float(c.quality))
+                            except ValueError:
+                                vals.append("degenerate")
+                            finally:
+                                warnings.resetwarnings()
+                    except Exception as e:  # the container is not accepted at all
+                        vals = ["raised " + type(e).__name__] * len(cells)
+                    alt[cont] = vals
+                entry["alt"] = alt
             evals.append(entry)
         return {"evals": evals}
 
@@ -454,11 +522,12 @@ class C14(core.Check):
 
         cells = [list(c) for c in case["cells"]]
         fp = np.array([[float(F(x)) for x in p] for p in case["points"]], dtype=float)
-        grid = cls(fp.copy(), [list(c) for c in cells])
+        grid = cls(_container(fp, case.get("container", "float")), [list(c) for c in cells])
         steps = []
         for op in case["hops"]:
             if op[0] == "R":
-                steps.append({"read": values(grid), "fresh": values(cls(grid.points.copy(), [list(c) for c in cells]))})
+                now = np.array([[float(x) for x in p] for p in grid.points], dtype=float)
+                steps.append({"read": values(grid), "fresh": values(cls(now, [list(c) for c in cells]))})
             elif op[0] == "W":
                 grid.points[:] = np.array([[float(F(x)) for x in q] for q in op[1]], dtype=float)
                 steps.append({"write": True})
@@ -620,6 +689,15 @@ class C14(core.Check):
             return out
         if case.get("cls") == "history":
             return out
+        for k, e in enumerate(ev):
+            for cont, vals in (e.get("alt") or {}).items():
+                for ci, (a, b) in enumerate(zip(e["q"], vals)):
+                    if (a == "degenerate") != (b == "degenerate") or (a != "degenerate" and (
+                            isinstance(b, str) or abs(a - b) > 1e-9 * max(1.0, abs(a)))):
+                        out.append({"site": f"{cls}.quality:depends-on-point-container",
+                                    "what": f"cell {ci} under transformation {case['transforms'][k]}: the same coordinates give {a!r} "
+                                            f"as a float array and {b!r} as {cont}", "observed": b, "expected": a})
+                        return out
         base = ev[0]
         for t, e in zip(case["transforms"][1:], ev[1:]):
             scaled = F(t.get("scale", "1")) != 1
@@ -695,7 +773,8 @@ class C14(core.Check):
 
     def classify(self, case, impl):
         if case.get("cls") == "history":
-            return f"{case['kind']}:{case['tag']}:{sum(1 for o in case['hops'] if o[0] == 'U')}u{sum(1 for o in case['hops'] if o[0] == 'W')}w"
+            return (f"{case['kind']}:{case['tag']}:{case.get('container', 'float')}:"
+                    f"{sum(1 for o in case['hops'] if o[0] == 'U')}u{sum(1 for o in case['hops'] if o[0] == 'W')}w")
         if case["tag"] in ("stretch", "degenerate", "grid"):
             return f"{case['kind']}:{case['tag']}"
         return f"{case['kind']}:{case['tag']}:{len(case['transforms'])}t"
